@@ -1,7 +1,6 @@
-SPECIFICATION Spec
+SPECIFICATION SimSpec
 CONSTANTS MaxN = 7 DetSort = TRUE Mut_NoPlusOne = FALSE Mut_GroupFirst = FALSE
 INVARIANT OpEqualsDef
-INVARIANT FastEqualsDef
 INVARIANT InRange
 INVARIANT Monotone
 INVARIANT TieEqual
